@@ -45,11 +45,11 @@ pub fn gen_case(rng: &mut Rng, idx: usize, thorough: bool) -> Value {
         // compute_ff_bytes, and EOS is illegal until their tokens have been committed
         let fams = eng::families();
         let n = fams.len();
-        let (g, t) = &fams[n - 4 + (idx / 8) % 4];
+        let (g, t) = &fams[n - 6 + (idx / 8) % 6];
         return json!({"kind": "api", "grammar": g.to_json(), "texts": t.iter().map(|t| vocab::hex(t.as_bytes())).collect::<Vec<_>>(), "vocab_kind": (idx / 32) % 3, "canonical": true, "seed": rng.next() % 1_000_000_000, "steps": steps});
     }
     let (g, texts) = eng::gen_grammar(rng, idx);
-    json!({"kind": "api", "grammar": g.to_json(), "texts": texts.iter().map(|t| vocab::hex(t)).collect::<Vec<_>>(), "vocab_kind": idx % 3, "canonical": (idx / 4) % 2 == 0, "seed": rng.next() % 1_000_000_000, "steps": steps})
+    json!({"kind": "api", "grammar": g.to_json(), "texts": texts.iter().map(|t| vocab::hex(t)).collect::<Vec<_>>(), "vocab_kind": (idx + idx / 3) % 3, "canonical": (idx / 4) % 2 == 0, "seed": rng.next() % 1_000_000_000, "steps": steps})
 }
 
 pub fn run_case(ctx: &Ctx, case: &Value, tag: usize, rep: &mut Report, mb: &mut ModelBatch) {
@@ -298,6 +298,46 @@ fn run_api(_ctx: &Ctx, case: &Value, tag: usize, rep: &mut Report, mb: &mut Mode
                 break;
             }
             rep.count("api.illegal.eos_outside_mask");
+        }
+        // batches: try_consume_tokens must behave like feeding the same tokens one call at a time (count, stop status
+        // and reason, accepting flag, next mask), also when a token in the middle is refused or the grammar completes
+        if rng.chance(1, 4) {
+            let mut sim = m.deep_clone();
+            let mut batch: Vec<u32> = vec![];
+            for _ in 0..1 + rng.below(4) {
+                if sim.is_stopped() { break; }
+                let Ok(al) = eng::mask_of(&mut sim) else { break };
+                if al.is_empty() { break; }
+                let t = if al.binary_search(&w.eos).is_ok() && rng.chance(1, 3) { w.eos } else { *rng.pick(&al) };
+                if sim.consume_token(t).is_err() { break; }
+                batch.push(t);
+            }
+            // extra tokens after the simulated ones: arbitrary ids (usually refused, also after a stop)
+            for _ in 0..rng.below(3) { batch.push(rng.below(vocab_n as usize) as u32); }
+            if rng.chance(1, 3) && !batch.is_empty() { let k = rng.below(batch.len()); batch.insert(k, rng.below(vocab_n as usize) as u32); }
+            let mut a = m.deep_clone();
+            let mut b = m.deep_clone();
+            let ra = a.try_consume_tokens(&batch);
+            let mut nb = 0usize;
+            let mut b_err = false;
+            for &t in &batch {
+                if b.is_stopped() || b.is_error() { break; }
+                match b.validate_tokens(&[t]) { Ok(1) => {} Ok(_) => break, Err(_) => { b_err = true; break; } }
+                if b.consume_token(t).is_err() { b_err = true; break; }
+                nb += 1;
+            }
+            rep.count("api.batch");
+            match ra {
+                Ok(na) if !b_err => {
+                    let oa = (na, a.is_stopped(), format!("{:?}", a.stop_reason()), a.is_error(), a.is_accepting().ok(), eng::mask_of(&mut a).ok());
+                    let ob = (nb, b.is_stopped(), format!("{:?}", b.stop_reason()), b.is_error(), b.is_accepting().ok(), eng::mask_of(&mut b).ok());
+                    if oa != ob {
+                        rep.fail("oracle", "c18:batch-differs-from-single-commits", format!("step {step}: try_consume_tokens({batch:?}) -> consumed {} stopped {} reason {} accepting {:?}; one at a time -> consumed {} stopped {} reason {} accepting {:?}{}", oa.0, oa.1, oa.2, oa.4, ob.0, ob.1, ob.2, ob.4, if oa.5 != ob.5 { "; next masks differ" } else { "" }), repro.clone());
+                        break;
+                    }
+                }
+                _ => rep.count("api.batch.error"),
+            }
         }
         // expected stop decision for the next commit, computed on a low-level clone
         let r = rng.below(12);
